@@ -16,7 +16,7 @@ def _native(args, timeout):
 def _miri(args, timeout, flags="-Zmiri-tree-borrows"):
     rc, out, err = run(
         ["cargo", "+nightly", "miri", "run", "--offline", "--quiet", "--"] + [str(a) for a in args],
-        cwd=os.path.join(VERIF, "rt"),
+        cwd=os.path.join(WORK, "rt-src"),
         env=env_with({"MIRIFLAGS": flags, "CARGO_TARGET_DIR": MIRI_TARGET}),
         timeout=timeout,
     )
@@ -68,12 +68,12 @@ def run_jobs(res, jobs, miri_jobs, nontrivial_key="distinct_states"):
                 i = err.find("error: Undefined Behavior")
                 what = "Miri (tree borrows) reports undefined behaviour while running the monitor workload:\n" + err[i:i + 3000]
                 res.violation("miri-ub:" + _classify(err[i:i + 200]), what,
-                              {"cmd.txt": "cd /verif/rt && MIRIFLAGS=-Zmiri-tree-borrows cargo +nightly miri run --offline -- " + " ".join(map(str, args)) + "\n", "stderr.txt": err})
+                              {"cmd.txt": "cd /verif/.work/rt-src && MIRIFLAGS=-Zmiri-tree-borrows cargo +nightly miri run --offline -- " + " ".join(map(str, args)) + "\n", "stderr.txt": err})
             elif kind == "miri" and ("memory leaked" in err or "error: " in err and "unsupported operation" not in err and "could not compile" not in err):
                 i = err.find("error:")
                 what = "Miri reports an error while running the monitor workload:\n" + err[i:i + 3000]
                 res.violation("miri-error:" + _classify(err[i:i + 200]), what,
-                              {"cmd.txt": "cd /verif/rt && MIRIFLAGS=-Zmiri-tree-borrows cargo +nightly miri run --offline -- " + " ".join(map(str, args)) + "\n", "stderr.txt": err})
+                              {"cmd.txt": "cd /verif/.work/rt-src && MIRIFLAGS=-Zmiri-tree-borrows cargo +nightly miri run --offline -- " + " ".join(map(str, args)) + "\n", "stderr.txt": err})
             elif rc == 101 or "panicked at" in err:
                 # a panic inside eqlog-runtime (or the monitor) under a legal operation sequence
                 i = err.find("panicked at")
